@@ -215,6 +215,19 @@ def greaterThan (s : St F) (x : Cell) (bx : Nat) (y : Cell) (by_ : Nat) : Cell Ã
   let (b, s) := leq s x bx y by_
   not s b
 
+/-- comparison.rs defaults `leq_fixed`, `geq_fixed`, `greater_than_fixed`. The constant
+`bound + 1` of `leq_fixed` is computed in the field: `p` is the native modulus. -/
+def leqFixed (s : St F) (x : Cell) (bx : Nat) (c p : Nat) : Cell Ã— St F :=
+  lowerThanFixed s x bx ((c + 1) % p)
+
+def geqFixed (s : St F) (x : Cell) (bx : Nat) (c : Nat) : Cell Ã— St F :=
+  let (o, s) := lowerThanFixed s x bx c
+  not s o
+
+def greaterThanFixed (s : St F) (x : Cell) (bx : Nat) (c p : Nat) : Cell Ã— St F :=
+  let (o, s) := leqFixed s x bx c p
+  not s o
+
 /-- native_gadget.rs: `ConversionInstructions<AssignedNative, AssignedBit>::convert`. -/
 def gConvertToBit (s : St F) (x : Cell) : Cell Ã— St F :=
   if s.boundLe x 2 then (x, s)
